@@ -82,7 +82,8 @@ where
 /-- the cleaned user map never binds its default namespace to a prefix as well -/
 theorem serializerNsMap_nodflt (env : NsEnv) (m : List (Pfx × Str)) (h : userMapOK env m = true) :
     ∀ s u, dget (serializerNsMap m) (some s) = some u → dget (serializerNsMap m) none ≠ some u := by
-  simp only [userMapOK] at h
+  simp only [userMapOK, Bool.and_eq_true] at h
+  replace h := h.1
   unfold serializerNsMap at h ⊢
   split
   · intro s u hs; simp [dget] at hs
@@ -93,7 +94,8 @@ theorem serializerNsMap_nodflt (env : NsEnv) (m : List (Pfx × Str)) (h : userMa
 /-- the cleaned user map satisfies the invariant -/
 theorem userMapOK_MapOK (env : NsEnv) (m : List (Pfx × Str)) (h : userMapOK env m = true) :
     MapOK env (userDefault m) (serializerNsMap m) := by
-  simp only [userMapOK] at h
+  simp only [userMapOK, Bool.and_eq_true] at h
+  replace h := h.1
   have hnd : NoDupKeys (serializerNsMap m) := by
     unfold serializerNsMap
     split
@@ -104,5 +106,10 @@ theorem userMapOK_MapOK (env : NsEnv) (m : List (Pfx × Str)) (h : userMapOK env
   right
   unfold userDefault
   exact hu.symm
+
+theorem userMapOK_valid (env : NsEnv) (m : List (Pfx × Str)) (h : userMapOK env m = true) :
+    prefixesValid env (serializerNsMap m) = true := by
+  simp only [userMapOK, Bool.and_eq_true] at h
+  exact h.2
 
 end Proofs.UserMap
